@@ -226,7 +226,12 @@ def run(ctx: Any, prog: Program) -> None:
     # ---- I8: key-store addressing ---------------------------------------------------------------------------
     for name, fn in ent_methods.items():
         # search loops: for K in self._keys
-        loops = [n for n in walk_no_nested(fn) if isinstance(n, ast.For) and dotted(n.iter) in ('self._keys',) and isinstance(n.target, ast.Name)]
+        def over_keys(it: ast.AST) -> bool:
+            # `self._keys`, `self._keys.keys()`, or a snapshot of either (list/tuple/sorted): the loop variable is a stored spelling
+            if isinstance(it, ast.Call) and dotted(it.func) in ('list', 'tuple', 'sorted') and len(it.args) == 1:
+                it = it.args[0]
+            return dotted(it) == 'self._keys' or (isinstance(it, ast.Call) and dotted(it.func) == 'self._keys.keys' and not it.args)
+        loops = [n for n in walk_no_nested(fn) if isinstance(n, ast.For) and over_keys(n.iter) and isinstance(n.target, ast.Name)]
         loop_vars = {l.target.id for l in loops}
         for n in walk_no_nested(fn):
             key_expr = None
@@ -305,14 +310,36 @@ def run(ctx: Any, prog: Program) -> None:
                               "reverted AND the spawn re-registered in by_class['worldspawn'] (found: " + ('key store reverted only' if keys_revert else ('index entry only' if explicit else 'neither')) + ')',
                               text='spawn re-registered before the refusal is raised')
     di = ent_methods['__delitem__']
-    raise_line = None
-    for n in walk_no_nested(di):
-        if isinstance(n, ast.If) and "== 'classname'" in U(n.test) and any(isinstance(x, ast.Raise) for x in n.body):
-            raise_line = n.lineno
-    pops = [n.lineno for n in walk_no_nested(di) if isinstance(n, ast.Call) and isinstance(n.func, ast.Attribute) and n.func.attr == 'pop'
-            and isinstance(n.func.value, ast.Attribute) and n.func.value.attr == '_keys']
-    ctx.check('C07.I4', raise_line is not None and all(raise_line < p for p in pops), vm, di,
-              'Entity.__delitem__ must refuse to delete classname before it touches the key store', text='classname deletion refused')
+    # the refusal: an `if` that mentions the constant 'classname' and raises.  It has to come before the key store is touched, and nothing that
+    # can happen in the same call may already have changed an index (a tuple of keys can name classname AND targetname)
+    refusals = [n for n in walk_no_nested(di) if isinstance(n, ast.If) and any(isinstance(x, ast.Raise) for x in n.body)
+                and any(isinstance(c, ast.Constant) and c.value == 'classname' for c in ast.walk(n.test))]
+    ctx.shape('C07.I4', len(refusals) == 1, vm, di, 'Entity.__delitem__ has one raising test on the constant classname', text='classname deletion refused')
+    if len(refusals) == 1:
+        ref = refusals[0]
+        pops = [n for n in walk_no_nested(di) if isinstance(n, ast.Call) and isinstance(n.func, ast.Attribute) and n.func.attr in ('pop', 'clear', 'popitem')
+                and isinstance(n.func.value, ast.Attribute) and n.func.value.attr == '_keys'] + \
+               [n for n in walk_no_nested(di) if isinstance(n, ast.Delete) and any(isinstance(t, ast.Subscript) and dotted(t.value) == 'self._keys' for t in n.targets)]
+        early_pop = [p_ for p_ in pops if p_.lineno < ref.lineno]
+        ctx.check('C07.I4', not early_pop, vm, early_pop[0] if early_pop else ref, 'Entity.__delitem__ must refuse to delete classname before it touches the key store', text='classname deletion refused')
+
+        def eq_test(t: ast.AST) -> Optional[tuple]:
+            if isinstance(t, ast.Compare) and len(t.ops) == 1 and isinstance(t.ops[0], ast.Eq) and isinstance(t.left, ast.Name) and isinstance(t.comparators[0], ast.Constant):
+                return t.left.id, t.comparators[0].value
+            return None
+        rt = eq_test(ref.test)
+        for c in walk_no_nested(di):
+            idx_change = isinstance(c, ast.Call) and ((dotted(c.func) == '_remove_copyset') or (isinstance(c.func, ast.Attribute) and c.func.attr in ('add', 'discard', 'remove')
+                                                                                                 and 'by_' in U(c.func.value)))
+            if not idx_change or c.lineno > ref.lineno:
+                continue
+            g = vm.parents.get(c)
+            while g is not None and g is not di and not (isinstance(g, ast.If) and eq_test(g.test) is not None):
+                g = vm.parents.get(g)
+            gt = eq_test(g.test) if isinstance(g, ast.If) else None
+            exclusive = rt is not None and gt is not None and rt[0] == gt[0] and rt[1] != gt[1]
+            ctx.check('C07.I4', exclusive, vm, c, f'Entity.__delitem__ changes an index (`{U(c)[:60]}`) in a call that can still be refused for classname (tests `{U(g.test)[:40] if isinstance(g, ast.If) else "-"}` and '
+                      f'`{U(ref.test)[:40]}` are not mutually exclusive): the KeyError leaves the entity with its name but filed as unnamed', text='no index change before the classname refusal')
     # ---- I9: search() consults both indexes for a plain name ------------------------------------------------------------------------
     sf = vmf_methods['search']
     ctx.rule('C07.I9', 'search(): a plain name yields the by_target matches and the by_class matches (neither hides the other); a trailing * searches by_target by prefix', floor=3)
